@@ -802,6 +802,7 @@ func init() {
 			wl.close()
 		}
 		c08LBSequences(run, &evals, &nontrivial)
+		c08MoveSequences(run, &evals, &nontrivial)
 		c08Failures(run, &evals, &nontrivial)
 		c08Agent(run, &evals, &nontrivial)
 		c08Auth(run, &evals, &nontrivial)
